@@ -143,4 +143,27 @@ def NetInterface.zero : NetInterface := { Index := 0, MTU := 0, Name := [], Hard
 /-- `crc32.ChecksumIEEE` (the bitwise model of Model/Dhcp.lean; the standard library is trusted). -/
 def crc32IEEE (b : Bytes) : UInt32 := UInt32.ofNat (PsaDhcp.crc32 b)
 
+/-- A `*clients.client` as code outside package `clients` sees it: which record it is (pointer identity) and
+the two fields its accessors `Uip()` / `LeasedUntil()` return, read when the pointer was obtained.  (Trusted:
+the translated callers use the accessors before their next call into the table — see DESIGN.md §13.) -/
+structure ClientRef where
+  id : Nat
+  ip : UInt32
+  leasedUntil : Int
+deriving DecidableEq, Repr
+
+/-- `p == q` on `*client` values -/
+def refEq : Option ClientRef → Option ClientRef → Bool
+  | none, none => true
+  | some a, some b => a.id == b.id
+  | _, _ => false
+
+/-- `p.Uip()`; a nil receiver is a nil-pointer dereference -/
+def refUip (p : Option ClientRef) (site : String) : R UInt32 :=
+  match p with | some c => pure c.ip | none => throw (.panic site)
+
+/-- `p.LeasedUntil()` -/
+def refLeasedUntil (p : Option ClientRef) (site : String) : R Int :=
+  match p with | some c => pure c.leasedUntil | none => throw (.panic site)
+
 end PsaDhcp.Go
